@@ -1,11 +1,38 @@
 PROPS["C14"] = dict(
     level="exploration",
-    technique="generated request objects vs. an own byte encoder of the mirrored reply and of every single-field perturbation; exact-size heap buffers under ASan/UBSan for every class x length 0..128",
-    level_text="x",
-    level_note="x",
+    technique="generated request objects vs. an own byte encoder of the mirrored reply and of every single-field perturbation (verdict checked per call); "
+              "exact-size heap buffers under ASan/UBSan for every class x every length 0..128",
+    level_text="Requests over {EthernetII, EthernetII/Dot1Q(xN), Dot1Q, bare network layer} x {IP, IPv6} x {TCP, UDP+payload, DNS over UDP, ICMP echo/timestamp/address-mask, "
+               "ICMPv6 echo} with boundary-heavy field values are built through the public API; the mirrored reply (IPv4 options as long as the request's, 0-3 IPv6 extension headers, "
+               "TCP options, minimal replies ending exactly at the header end) and ~14 perturbations of one matched field each are encoded by the monitor's own encoder with correct "
+               "checksums and handed to the real matches_response; each verdict is compared at once with the expectation derived from the shadow. The safety phase calls the matcher "
+               "of every concrete PDU class of the current headers (alone and over 10 kinds of inner chain) and of generated request stacks on exact-size heap blocks of every length "
+               "0..128 filled with zeros, random bytes, the prefix of a true mirror, byte-mutated and structure-mutated mirrors (IHL 0..15, data offset, extension-header lengths ending "
+               "at/after the buffer end, ICMP-error quoting cut short) and with misaligned starts.",
+    level_note="Trusted: the ~120-line byte encoder of this monitor (RFC 791/792/768/793/8200/4443/1035 layouts). Only the reply's Ethernet DESTINATION counts as matched L2 address; "
+               "documented exceptions (request to 255.255.255.255 [+ source 0.0.0.0], request to ff02::/16) make the reply's source [destination] an unmatched field and are only observed. "
+               "Replies whose IPv4 header length differs from the request's, ICMP errors quoting the request and UDP requests without payload are outside the statement (observed, never judged).",
     phases=[dict(name="pairs", harness="c14.cpp", flavor="asan", mode="pairs", cases=dict(quick=400000, thorough=5000000)),
             dict(name="safety", harness="c14.cpp", flavor="asan", mode="safety", cases=dict(quick=40000, thorough=800000))],
-    rule="x",
-    floors=dict(any={}),
-    assumptions=[],
+    rule="pairs: case = one request (stack shape, all matched field values, own IP options / extension headers, serialized first or not, optionally inside a PDUCacher) with 4 mirrored "
+         "replies (3 draws of the responder-chosen fields + the minimal reply) and 2 rounds of every applicable single-field perturbation (Ethernet destination, each VLAN id, IP/IPv6 "
+         "source, destination, either port, ICMP/ICMPv6 id, sequence, reply type, DNS id: one-bit flips, +-1, byte swap, neighbour field's value, random), the request echoed back and an "
+         "unrelated ICMP error; distinct = distinct (shape, matched field values); every case is non-trivial (>= 4 positive and >= 10 negative verdicts). safety: case = one subject "
+         "(class K x inner-chain kind, or a generated request stack) x 129 lengths x 5-6 buffer contents; cases 0..10 hold the trigger shapes of listed findings (kf=) one per case",
+    floors=dict(any={"distinct": 300000, "pos_checks": 1000000, "neg_checks": 3000000,
+                     "pos:tcp": 100000, "pos:udp-raw": 100000, "pos:udp-dns": 100000, "pos:icmp-echo": 60000, "pos:icmp-ts": 30000, "pos:icmp-mask": 30000, "pos:icmpv6-echo": 80000,
+                     "neg:eth-dst": 200000, "neg:vlan-id": 150000, "neg:ip-src": 150000, "neg:ip-dst": 150000, "neg:ipv6-src": 100000, "neg:ipv6-dst": 100000,
+                     "neg:src-port": 150000, "neg:dst-port": 150000, "neg:icmp-id": 60000, "neg:icmp-seq": 60000, "neg:icmp-type": 60000,
+                     "neg:icmpv6-id": 40000, "neg:icmpv6-seq": 40000, "neg:icmpv6-type": 40000, "neg:dns-id": 50000, "neg:request-echoed-back": 100000, "neg:unrelated-icmp-error": 50000,
+                     "br:ipv6-ext-1": 20000, "br:ipv6-ext-2+": 15000, "br:ip-options-in-request": 15000, "br:tcp-options-in-reply": 15000, "br:reply-ends-at-header-end": 20000,
+                     "br:broadcast-exception": 5000, "br:ff02-exception": 3000, "br:request-serialized-first": 100000, "br:root-network-layer": 30000, "br:root-dot1q": 10000,
+                     "br:double-tag": 10000, "br:request-in-PDUCacher": 5000,
+                     "safety_calls": 15000000, "safety_true": 3000000, "safety_misaligned_calls": 2500000, "safety_class_subjects": 1000,
+                     "safety_class_subjects_matching_something": 1000, "safety_request_subjects": 13000, "safety_request_subjects_with_ipv6_ext": 3000, "safety_classes_total": 40}),
+    assumptions=["the request object is built with the public constructors/setters only; in half of the cases it is serialized once before matching, as send_recv() does",
+                 "a mirrored reply keeps the request's VLAN ids and (IPv4) carries an options area as long as the request's; every other unmatched field is drawn freely",
+                 "an over-read is visible because the buffer is the tail of an exact-size malloc block (ASan red zone directly behind it); unaligned partially-out-of-bounds word loads "
+                 "that stay inside one 8-byte shadow granule are found through the neighbouring lengths of the sweep",
+                 "sanitizer aborts on the trigger shapes of listed findings are isolated in safety cases 0..10 (kf= tag); the regular sweep skips exactly those (class, length, alignment) "
+                 "combinations and counts them in safety_deferred_to_kf_cases"],
 )
